@@ -26,14 +26,18 @@ MStep == /\ Consume("step")
          /\ seen' = seen \cup {Ev.new[i].m : i \in DOMAIN Ev.new}
          /\ cancelled' = (cancelled \/ (Ev.t = "cancel" /\ Ev.from = "c_cancel" /\ Ev.ok))
 \* quiescence (nobody can move): no thread waits for a lock, and unless the store was cancelled
-\* every arrived message of a known device has been delivered - none is left parked or queued
+\* every arrived message of a known device has been delivered - none is left parked or queued -
+\* except a message beyond the ratchet window (C02: counter > window + the device's opened messages),
+\* which is not decryptable yet
+NOpenObs(d) == Cardinality({m \in seen : Ev.devof[m] = d})
+Beyond(m) == "win" \in DOMAIN Ev /\ Ev.win > 0 /\ Ev.ctrof[m] > Ev.win + NOpenObs(Ev.devof[m])
 MFinal == /\ Consume("final")
           /\ Ev.atgate = <<>> /\ ~Ev.livelock
           /\ ToSet(Ev.delivered) = seen
           /\ cancelled \/
                /\ \A i \in DOMAIN Ev.arrived :
-                     (Ev.devof[Ev.arrived[i]] \in ToSet(Ev.known)) => Ev.arrived[i] \in seen
-               /\ \A i \in DOMAIN Ev.parked : Ev.devof[Ev.parked[i]] \notin ToSet(Ev.known)
+                     (Ev.devof[Ev.arrived[i]] \in ToSet(Ev.known)) => (Ev.arrived[i] \in seen \/ Beyond(Ev.arrived[i]))
+               /\ \A i \in DOMAIN Ev.parked : Ev.devof[Ev.parked[i]] \notin ToSet(Ev.known) \/ Beyond(Ev.parked[i])
                /\ \A i \in DOMAIN Ev.inqueue : Ev.devof[Ev.inqueue[i]] \notin ToSet(Ev.known)
           /\ UNCHANGED <<seen, cancelled>>
 MNext == MReset \/ MCfg \/ MStep \/ MFinal
